@@ -280,7 +280,10 @@ def oracle(plan, out):
                         got = ("ipv6", th[1:-1].decode("latin1"), int(hp[1]))
                     else:
                         try:
-                            ipaddress.ip_address(th.decode("ascii"))
+                            if ipaddress.ip_address(th.decode("ascii")).version == 6:
+                                # an IPv6 literal in an authority must be bracketed: without brackets "a:b::c:443" is ambiguous
+                                # (it is itself an address, and the next hop cannot know where the port begins)
+                                injected = "IPv6 literal without brackets in the request target %r" % target[:80]
                             got = ("ip", th.decode("ascii"), int(hp[1]))
                         except (ValueError, UnicodeDecodeError):
                             got = ("domain", th, int(hp[1]))
